@@ -275,7 +275,7 @@ def check_property(prop_id, tier, seed, props):
     outdir = os.path.join(BUILD, prop_id, "run")
     shutil.rmtree(outdir, ignore_errors=True)
     os.makedirs(outdir, exist_ok=True)
-    replay_dir = os.path.join(VERIF, "replays", "new")
+    replay_dir = os.environ.get("VERIF_REPLAY_NEW") or os.path.join(VERIF, "replays", "new")
     os.makedirs(replay_dir, exist_ok=True)
 
     known, fixed = load_known(prop_id)
